@@ -43,9 +43,10 @@ PLAN = {
     },
     'C06': {
         'inv': ['ConnAgree', 'C06_IssuedIdUnique', 'C06_AckOutcome',
-                'C06_IssuedMatchesCore'],
-        'quick': ['acks_quick'],
-        'thorough': ['acks_quick', 'acks', 'acks_mp_quick'],
+                'C06_IssuedMatchesCore', 'C06_CallOutcome'],
+        'quick': ['acks_quick', 'calls_quick', 'calls_inline'],
+        'thorough': ['acks_quick', 'acks', 'acks_mp_quick', 'calls_quick',
+                     'calls_inline', 'calls'],
     },
     'C11': {
         'inv': ['C11_NoResidue', 'C11_FreshWhenEmpty'],
